@@ -19,7 +19,8 @@ CHECKS = {
         'partition/uniqueness; bin_count and each experimental entry are the count / the estimator over exactly '
         'that sub-list; pdist order enumerates exactly the pairs i<j once and keeps k-th distance and k-th '
         'difference on the same pair; Matheron/Dowd/Genton as generated from estimators.py equal the documented '
-        'formulas (Genton only for even N: D15 counter-example proved), Cressie-Hawkins over the reals; closed form of the condensed index; the comparison operators of the lag-class loop are extracted from the source. Tie: translator for estimator formulas; '
+        'formulas (Genton only for even N: D15 counter-example proved), Cressie-Hawkins over the reals; closed form of the condensed index; the comparison operators of the lag-class loop are extracted from the source; end to end (C01_pipeline_even): one executable function '
+        'composes maxlag resolution, clipping, even edges, grouping, counting and the estimator - n_lags classes ending at the effective maximum lag, class k = exactly the pairs with edge[k-1] <= d < edge[k]. Tie: translator for estimator formulas; whole-pipeline correspondence (bins, groups, counts, semivariances from distances + values alone); '
         'correspondence of groups/counts (exact) and semivariances (1e-9) on the implementation\'s own distance '
         'vector for all binnings/estimators/storages; brute-force pair-set oracles for dense and sparse storage.',
    note='pdist / cKDTree numerical contents are taken from the implementation (C20 checks them); Cressie-Hawkins is '
